@@ -26,6 +26,7 @@ from typing import Any
 
 from happysimulator.core.entity import Entity
 from happysimulator.core.event import Event
+from happysimulator.core.sim_future import SimFuture
 
 logger = logging.getLogger(__name__)
 
@@ -121,7 +122,7 @@ class Barrier(Entity):
         """Current barrier generation (increments each time barrier breaks)."""
         return self._generation
 
-    def wait(self) -> Generator[float, None, int]:
+    def wait(self) -> Generator[float | SimFuture, None, int]:
         """Wait at the barrier until all parties arrive.
 
         This is a generator that yields control while waiting for other
@@ -135,7 +136,7 @@ class Barrier(Entity):
             RuntimeError: If the barrier is broken.
 
         Yields:
-            0.0 while waiting for other parties.
+            A SimFuture that is resolved when the last party arrives.
 
         Example:
             def handle_event(self, event):
@@ -159,25 +160,22 @@ class Barrier(Entity):
             return 0
 
         # Not the last - must wait
-        released = [False]
+        # Future resolved when the barrier breaks (or is reset/aborted)
+        released = SimFuture()
 
-        def on_release():
-            released[0] = True
-
-        waiter = _BarrierWaiter(callback=on_release, enqueue_time_ns=enqueue_time)
+        waiter = _BarrierWaiter(callback=released.resolve, enqueue_time_ns=enqueue_time)
         self._waiters.append(waiter)
         arrival_index = self._parties - len(self._waiters)
 
-        # Yield control until released
-        while not released[0]:
+        # Park until released (waiting consumes no simulated activity)
+        while not released.is_resolved:
             # Check for broken barrier
             if self._broken:
                 raise RuntimeError(f"Barrier {self.name} is broken")
             # Check for generation change (we were released)
             if self._generation != my_generation:
-                released[0] = True
                 break
-            yield 0.0
+            yield released
 
         # Record wait time
         if self._clock:
